@@ -472,7 +472,12 @@ def pc_options(comp, phases, full=True):
         return [None] + subs
     if k in LOADS:
         key = {"PLoad": "pwr", "ILoad": "ii", "RLoad": "rs"}[k]
-        return [None] + [{p: _r(abs(comp["a"][key]) * _PHMULT[p]) for p in s} for s in subs]
+        out = [None] + [{p: _r(abs(comp["a"][key]) * _PHMULT[p]) for p in s} for s in subs]
+        if k != "RLoad":  # an explicit 0 for a phase is a configured value, not an absent phase (sleep value must NOT be used)
+            z = {p: _r(abs(comp["a"][key]) * _PHMULT[p]) for p in names}
+            z[names[0]] = 0.0
+            out.append(z)
+        return out
     return [None]
 
 
